@@ -6,8 +6,9 @@ Check protocol (DESIGN §3.4):  run_check.py <Cxx> --tier quick|thorough
  2 build          lake build driver + ExponaxModel.Properties.<Cxx>   (proof obligations)
  3 audit          forbidden-token grep + `#print axioms` of every property theorem
  4 correspondence model (driver) vs implementation on seeded / enumerated inputs
- 5 oracle         property-level probes on the real code: a small fixed set on every run
+ 5 oracle         property-level probes on the real code: a small fixed set on every quick run
                   (this is where known findings are re-observed), the full search when 1-4 broke
+                  and always in the thorough tier
  6 verdict        exit 0 / "VIOLATION property=<id> replay=<path>[ no-failing-input-found]" exit 1
 """
 from __future__ import annotations
@@ -106,7 +107,7 @@ def main():
     failures = []
     try:
         with contextlib.redirect_stdout(sys.stderr):
-            failures = mod.oracle(ctx, deep=bool(broken) or os.environ.get("VERIF_FORCE_DEEP") == "1")
+            failures = mod.oracle(ctx, deep=bool(broken) or ctx.tier == "thorough" or os.environ.get("VERIF_FORCE_DEEP") == "1")
     except Exception as e:
         broken.append(("oracle", f"oracle exception {type(e).__name__}: {e}\n" + traceback.format_exc()[-1200:]))
 
